@@ -39,7 +39,7 @@ STUBS = ["CH layer: hist_functions.get_bin_on_value_1d replaced by the linear-sc
 ASSUMPTIONS = [
     "edges and values are finite; ordering of finite floats/ints is the ordering of the reals",
     "K exact mode: the guess int(A*(float(P)/Q)) is the truncation of the exact real quotient",
-    "fp_witness: z3 (floating-point theory) produces doubles reaching the rounding corner of the search; they are run through the real function (a solver-generated differential test of the branch that only rounding reaches)",
+    "fp_witness: z3 (floating-point theory) produces doubles reaching the rounding corner of the search, and exact edges with their two floating-point neighbours; they are run through the real function (a solver-generated differential test of what only rounding reaches)",
     "K robust mode: the guess is ANY integer in [0, ind_max-ind_min]; that the float computation "
     "lands there is the chain L1a, L1b, L2, L3 (IEEE-754 round-to-nearest, no overflow in V-A, B-A, "
     "ints with |x| <= 2**53)",
@@ -76,6 +76,8 @@ def replay_float(val_hex, arr_hex):
 
 
 FPW = [(3, 0), (4, 0), (4, 1), (5, 0), (5, 2), (6, 1), (6, 3), (8, 2)]
+# (n, edge, side): exact edges and their floating-point neighbours
+FPN = [(n, e, sd) for n in (3, 5) for e in range(n) for sd in (-1, 0, 1)]
 
 
 def fp_witness(budget):
@@ -83,6 +85,25 @@ def fp_witness(budget):
     corner (guess == ind_max although val < arr[ind_max]), replayed on the
     real function against the reference."""
     from verif import fp_lemmas as fl
+    if h.SHARD_I >= len(FPW):
+        # one task for all edge/neighbour witnesses (cheap queries)
+        qs, bad = [], []
+        total = 0.0
+        for (n, e, sd) in FPN:
+            r, dt, w = fl.neighbour_witness(n, e, sd, min(budget, 20))
+            total += dt
+            qs.append(dict(query="neighbour n=%d edge=%d side=%+d" % (n, e, sd), result=r, seconds=dt,
+                           witness=w))
+            if w is not None and not replay_float(w[0].hex(), [x.hex() for x in w[1]]):
+                bad.append((w, n, e, sd))
+        msgs = [{"state": "POST_FAIL", "call": "replay_float(%r, %r)" % (w[0].hex(), [x.hex() for x in w[1]]),
+                 "message": "wrong bin for the neighbour (%+d) of edge %d, n=%d" % (sd, e, n)}
+                for (w, n, e, sd) in bad]
+        found = len([q for q in qs if q["result"] == "sat"])
+        status = "REFUTED" if bad else ("CONFIRMED" if found == len(FPN) else "UNKNOWN")
+        return dict(status=status, paths=len(FPN), confirmed_paths=found - len(bad), decisions=len(FPN),
+                    solver_checks=len(FPN), solver_time_s=round(total, 2), messages=msgs, queries=qs[:6],
+                    detail="%d edge/neighbour witnesses, %d disagree with the reference" % (found, len(bad)))
     n, cell = FPW[h.SHARD_I]
     r, dt, w = fl.rounding_witness(n, cell, budget)
     q = [dict(query="rounding corner n=%d cell=%d" % (n, cell), result=r, seconds=dt)]
@@ -157,6 +178,12 @@ def translator_validation(budget):
         vectors.append((val, [0, 1, 2, 3]))
         vectors.append((val, [0.0, 0.25, 2.0]))
     bad, qs = [], []
+    from verif import kernel
+    try:
+        kernel.translate(SRC, "get_bin_on_value_1d", 3, "exact")
+    except kernel.Unsupported as e:
+        return dict(status="UNKNOWN", paths=0, messages=[],
+                    detail="the current source is outside the translated subset: %s" % e)
     for val, arr in vectors:
         real = hf.get_bin_on_value_1d(val, arr)
         model = kc.evaluate_concrete(SRC, "get_bin_on_value_1d", val, arr)
@@ -377,7 +404,7 @@ CONDITIONS = [
     dict(fn="kernel_robust", custom=True, shards=(7, 11), budget=(100, 1500)),
     dict(fn="translator_validation", custom=True, budget=(100, 300)),
     dict(fn="fp_lemmas", custom=True, shards=(4, 4), budget=(110, 1500)),
-    dict(fn="fp_witness", custom=True, shards=(8, 8), budget=(60, 600)),
+    dict(fn="fp_witness", custom=True, shards=(9, 9), budget=(60, 600)),
     dict(fn="check_fill_1d", budget=(80, 900),
          smoke=["check_fill_1d(0, 1, 2, 3, 4, [0, 1, 6, -1], [1, 2, 3, 4])",
                 "check_fill_1d(0, 1, 1, 1, 2, [1], [5])"]),
